@@ -69,6 +69,7 @@ func checkC11(ctx *Ctx, r *Report) {
 	c05OpenAPIMappingNames(ctx, r)
 	c11ThirdRound(ctx, r)
 	c11FourthRound(ctx, r)
+	c02PythonMethodNamesEscaped(ctx, r)
 	c06NullableGuardExact(ctx, r)
 	c11HintMonotone(ctx, r)
 	c11GoPointerLast(ctx, r)
